@@ -49,6 +49,8 @@ type eCfg struct {
 	MaxScrape uint32 `json:"maxscrape"`
 	Interval  int64  `json:"interval"`
 	MinIntv   int64  `json:"min_interval"`
+	// request timing enabled in both frontends (no observable effect on any response; the branch exists in the code)
+	Timing bool `json:"timing,omitempty"`
 }
 
 type eReq struct {
@@ -211,9 +213,9 @@ func e2eRun(o *Out, kind string, cfg eCfg, reqs []eReq) {
 	}
 	rec := &eRec{done: make(chan struct{}, 16)}
 	rec.inner = middleware.NewLogic(middleware.ResponseConfig{AnnounceInterval: time.Duration(cfg.Interval), MinAnnounceInterval: time.Duration(cfg.MinIntv)}, store, nil, nil)
-	uf := udp.VerifNewOffline(rec, udp.Config{PrivateKey: cfg.Key, MaxClockSkew: time.Duration(cfg.SkewNs),
+	uf := udp.VerifNewOffline(rec, udp.Config{PrivateKey: cfg.Key, MaxClockSkew: time.Duration(cfg.SkewNs), EnableRequestTiming: cfg.Timing,
 		ParseOptions: udp.ParseOptions{AllowIPSpoofing: cfg.USpoof, MaxNumWant: cfg.MaxNW, DefaultNumWant: cfg.DefNW, MaxScrapeInfoHashes: cfg.MaxScrape}})
-	hh, hstop := httpfe.VerifHandler(rec, httpfe.Config{Addr: "127.0.0.1:0", AnnounceRoutes: []string{"/announce", "/a/:k/announce"}, ScrapeRoutes: []string{"/scrape"},
+	hh, hstop := httpfe.VerifHandler(rec, httpfe.Config{Addr: "127.0.0.1:0", EnableRequestTiming: cfg.Timing, AnnounceRoutes: []string{"/announce", "/a/:k/announce"}, ScrapeRoutes: []string{"/scrape"},
 		ParseOptions: httpfe.ParseOptions{AllowIPSpoofing: cfg.HSpoof, RealIPHeader: cfg.HdrName, MaxNumWant: cfg.MaxNW, DefaultNumWant: cfg.DefNW, MaxScrapeInfoHashes: cfg.MaxScrape}})
 	clock := int64(0)
 	var terms []string
@@ -527,6 +529,7 @@ func e2eStream(o *Out, rng *rand.Rand, n int) {
 		if rng.Intn(5) == 0 {
 			cfg.Interval += int64(rng.Intn(999999999)) // sub-second part
 		}
+		cfg.Timing = rng.Intn(2) == 0
 		ihs := make([][]byte, 3)
 		for i := range ihs {
 			ihs[i] = make([]byte, 20)
